@@ -1,9 +1,15 @@
 mod alloc;
+mod boundary;
+mod chaindrive;
 mod codec;
+mod consdrive;
+mod doscdrive;
 mod drive;
+mod feedrive;
 mod js;
 mod keys;
 mod lj;
+mod stakedrive;
 mod swapdrive;
 mod vm;
 mod wallet;
@@ -111,6 +117,60 @@ fn cmd_ledger(a: &Args) {
     println!("{}", json!({"records": n}));
 }
 
+fn cmd_chain(a: &Args) {
+    let mut out = Out::new(&a.s("out", "chain.ndjson"));
+    let net = drive::net_of(&a.s("net", "custom02"));
+    let fm: u128 = a.s("feemult", "1000").parse().unwrap();
+    chaindrive::chain_history(&mut out, &a.s("tag", "chain"), a.u64("seed", 1), net, a.u64("blocks", 6) as usize, fm);
+    let n = out.finish();
+    println!("{}", json!({"records": n}));
+}
+
+fn cmd_stake(a: &Args) {
+    let mut out = Out::new(&a.s("out", "stake.ndjson"));
+    let net = drive::net_of(&a.s("net", "custom02"));
+    stakedrive::stake_history(&mut out, &a.s("tag", "stake"), a.u64("seed", 1), net, a.u64("height", 399_997));
+    let n = out.finish();
+    println!("{}", json!({"records": n}));
+}
+
+fn cmd_consensus(a: &Args) {
+    let mut out = Out::new(&a.s("out", "consensus.ndjson"));
+    consdrive::consensus(&mut out, a.u64("seed", 1), a.s("tier", "quick") == "thorough");
+    let n = out.finish();
+    println!("{}", json!({"records": n}));
+}
+
+fn cmd_feemult(a: &Args) {
+    let mut out = Out::new(&a.s("out", "feemult.ndjson"));
+    feedrive::grid(&mut out, a.u64("seed", 1), a.s("tier", "quick") == "thorough");
+    let n = out.finish();
+    println!("{}", json!({"records": n}));
+}
+
+fn cmd_dosc(a: &Args) {
+    let mut out = Out::new(&a.s("out", "dosc.ndjson"));
+    let net = drive::net_of(&a.s("net", "custom02"));
+    doscdrive::dosc_history(&mut out, &a.s("tag", "dosc"), a.u64("seed", 1), net, a.s("tier", "quick") == "thorough");
+    let n = out.finish();
+    println!("{}", json!({"records": n}));
+}
+
+fn cmd_boundary(a: &Args) {
+    let mut out = Out::new(&a.s("out", "boundary.ndjson"));
+    boundary::boundary(&mut out, &a.s("tag", "boundary"), a.u64("seed", 1), a.u64("cases", 300) as usize);
+    let n = out.finish();
+    println!("{}", json!({"records": n}));
+}
+
+fn cmd_swap(a: &Args) {
+    let mut out = Out::new(&a.s("out", "swap.ndjson"));
+    let net = drive::net_of(&a.s("net", "custom02"));
+    swapdrive::swap_history(&mut out, &a.s("tag", "swap"), a.u64("seed", 1), net, a.u64("blocks", 10) as usize, a.u64("big", 0) == 1);
+    let n = out.finish();
+    println!("{}", json!({"records": n}));
+}
+
 fn cmd_codec(a: &Args) {
     let seed = a.u64("seed", 1);
     let mut out = Out::new(&a.s("out", "codec.ndjson"));
@@ -137,6 +197,13 @@ fn main() {
         Some("vm") => cmd_vm(&a),
         Some("codec") => cmd_codec(&a),
         Some("ledger") => cmd_ledger(&a),
+        Some("swap") => cmd_swap(&a),
+        Some("boundary") => cmd_boundary(&a),
+        Some("dosc") => cmd_dosc(&a),
+        Some("feemult") => cmd_feemult(&a),
+        Some("consensus") => cmd_consensus(&a),
+        Some("stake") => cmd_stake(&a),
+        Some("chain") => cmd_chain(&a),
         Some("vmcost") => cmd_vmcost(&a),
         _ => {
             eprintln!("usage: harness <vm|...> [--key value]...");
